@@ -364,3 +364,28 @@ def sweep(kind: str, max_nodes: int, procs: Optional[int] = None, limit: Optiona
                     pool.terminate()
                     break
     return len(jobs), fails
+
+
+def sample(kind: str, nodes: int, count: int, seed: int = 0, p_edge: float = 0.3, procs: Optional[int] = None):
+    """The same checks on `count` random digraphs with `nodes` nodes (edge probability p_edge, self-loops included,
+    half of the graphs forced acyclic by keeping only edges i -> j with j > i).  Returns (cases, failures)."""
+    import random
+    rnd = random.Random(1000003 * seed + 17 * nodes + len(kind))
+    jobs, seen = [], set()
+    while len(jobs) < count:
+        acyclic = rnd.random() < 0.5
+        g = tuple(tuple(j for j in range(nodes)
+                        if rnd.random() < p_edge and (not acyclic or j > i)) for i in range(nodes))
+        if g in seen:
+            continue
+        seen.add(g)
+        jobs.append((kind, g))
+    procs = procs or min(16, os.cpu_count() or 1)
+    fails = []
+    with multiprocessing.Pool(procs) as pool:
+        for r in pool.imap_unordered(_run, jobs, chunksize=16):
+            fails.extend(r)
+            if len(fails) >= 40:
+                pool.terminate()
+                break
+    return len(jobs), fails
